@@ -296,7 +296,21 @@ class SR:
         return quot(lift(o), self.e)
     def __neg__(self): return SR(-self.e)
     def __pos__(self): return self
-    def __round__(self, n=None): return self
+    def rint(self):
+        """nearest integer (ties either way: the claim must not depend on the tie rule)"""
+        ENG.k += 1
+        k = z3.Int(f'__rint{ENG.k}')
+        ENG.defs.append(z3.And(self.e - z3.RealVal('1/2') <= z3.ToReal(k), z3.ToReal(k) <= self.e + z3.RealVal('1/2')))
+        return SR(z3.ToReal(k))
+
+    def __round__(self, n=None):
+        if n is None or n == 0:
+            return self.rint()
+        p = z3.RealVal(10 ** int(n))
+        return SR(SR(self.e * p).rint().e / p)
+
+    def round(self, n=0):
+        return self.__round__(n)
     def sin(self): return SR(UFS['sin'](self.e))
     def cos(self): return SR(UFS['cos'](self.e))
     def tan(self): return SR(UFS['tan'](self.e))
@@ -343,15 +357,19 @@ class SR:
     def __abs__(self): return SR(z3.If(self.e >= 0, self.e, -self.e))
     def __lt__(self, o):
         if _nd(o): return _bcast(operator.lt, self, o)
+        if getattr(o, '_foreign_number', False): return NotImplemented      # let the other operand's reflected comparison decide
         return SB(self.e < lift(o))
     def __le__(self, o):
         if _nd(o): return _bcast(operator.le, self, o)
+        if getattr(o, '_foreign_number', False): return NotImplemented      # let the other operand's reflected comparison decide
         return SB(self.e <= lift(o))
     def __gt__(self, o):
         if _nd(o): return _bcast(operator.gt, self, o)
+        if getattr(o, '_foreign_number', False): return NotImplemented      # let the other operand's reflected comparison decide
         return SB(self.e > lift(o))
     def __ge__(self, o):
         if _nd(o): return _bcast(operator.ge, self, o)
+        if getattr(o, '_foreign_number', False): return NotImplemented      # let the other operand's reflected comparison decide
         return SB(self.e >= lift(o))
     def __eq__(self, o):
         if _nd(o): return _bcast(operator.eq, self, o)
